@@ -58,6 +58,7 @@ EXPECT = {
     'N1': [('FixtureLint::Fold', 'lon->sincosd')],
     'D3': [('FixtureLint::Newton', 'ssig/sig')],
     'OV1': [('FixtureLint::LengthOk', 'product@')],
+    'CP1': [('FixtureLint::Pad', 'easting/northing')],
     'X7r': [('FixtureShared::HalfFilled', 'alpha_')],
     'K7': [('FixtureRaster::probe', 'B1 filepos column')],
     'W1': [('FixtureShared::HalfWritten', 'northp')],
@@ -125,6 +126,9 @@ def run_controls(rules):
         elif r == 'N1':
             from .rules import lint
             res = lint.rule_N1(fx, None)[0]
+        elif r == 'CP1':
+            from .rules import lint
+            res = lint.rule_CP1(fx, None)[0]
         elif r == 'D3':
             from .rules import lint
             res = lint.rule_D3(fx, None)[0]
